@@ -66,17 +66,17 @@ type knownFinding struct {
 }
 
 type replayFile struct {
-	Property string    `json:"property"`
-	Tier     string    `json:"tier"`
-	Seed     int64     `json:"seed"`
-	Shard    int       `json:"shard"`
-	NShards  int       `json:"nshards"`
-	CaseID   string    `json:"case_id"`
-	Key      string    `json:"key"`
-	What     string    `json:"what"`
-	Input    string    `json:"input"`
-	Detail   string    `json:"detail,omitempty"`
-	Replay   string    `json:"how_to_replay"`
+	Property string `json:"property"`
+	Tier     string `json:"tier"`
+	Seed     int64  `json:"seed"`
+	Shard    int    `json:"shard"`
+	NShards  int    `json:"nshards"`
+	CaseID   string `json:"case_id"`
+	Key      string `json:"key"`
+	What     string `json:"what"`
+	Input    string `json:"input"`
+	Detail   string `json:"detail,omitempty"`
+	Replay   string `json:"how_to_replay"`
 }
 
 type shardRun struct {
